@@ -239,6 +239,14 @@ type Watchdog struct {
 	MemCap  uint64
 }
 
+var traceFile *os.File
+
+func init() {
+	if p := os.Getenv("VH_TRACE"); p != "" {
+		traceFile, _ = os.Create(p)
+	}
+}
+
 func NewWatchdog(rep *Report, limit time.Duration) *Watchdog {
 	w := &Watchdog{rep: rep, Limit: limit, MemCap: 6 << 30}
 	go w.loop()
@@ -247,6 +255,12 @@ func NewWatchdog(rep *Report, limit time.Duration) *Watchdog {
 
 // Begin announces a case. witness is only called if the case times out.
 func (w *Watchdog) Begin(prop, kind string, witness func() string) {
+	if traceFile != nil {
+		// crash tracing (second run of a shard whose worker died): leave the
+		// witness of the case about to run where the orchestrator finds it
+		traceFile.Truncate(0)
+		traceFile.WriteAt([]byte(prop+"\n"+witness()), 0)
+	}
 	w.mu.Lock()
 	w.prop, w.kind, w.witness, w.since, w.active = prop, kind, witness, time.Now(), true
 	w.mu.Unlock()
